@@ -1,10 +1,10 @@
 (* C13 - Rendering a copyright object is a faithful fixpoint (partial: the stability of parse
    after render is proved field class by field class - single-line, whitespace lists and single
-   copyright statements for EVERY value, multi-line copyright fields when every line holds a
-   word, formatted text on policy-conformant values, extra data in decoded normal form - and an
+   copyright statements for EVERY value, line lists whose first line holds a word, multi-line
+   copyright fields when every line holds a word, formatted text on policy-conformant values, extra data in decoded normal form - and an
    extra field is proved to re-parse to exactly the text it was rendered from (the defect of the
    pinned tree, one more space of indentation per cycle, is excluded by this theorem).  NOT
-   proved: stability of line lists (Upstream-Contact) and of the License field, that every
+   proved: stability of the License field, that every
    paragraph rendering is free of empty lines (proved for encoded formatted values only; given
    that, the rendering is proved to split back into exactly as many paragraphs), and the
    composition into whole documents: render . parse . render = render, equality of the
@@ -33,6 +33,12 @@ Theorem C13_copyright_field_stable : forall raw, Forall (fun l => words l <> [])
   convert FCopyright (fval_dumps (convert FCopyright raw)) = convert FCopyright raw.
 Proof. exact copyright_stable. Qed.
 Print Assumptions C13_copyright_field_stable.
+
+Theorem C13_line_list_stable : forall raw,
+  (match splitlines raw with l0 :: _ => strip l0 <> [] | [] => True end) ->
+  convert FLineSep (fval_dumps (convert FLineSep raw)) = convert FLineSep raw.
+Proof. exact line_list_stable. Qed.
+Print Assumptions C13_line_list_stable.
 
 (* render . parse . render . parse = render . parse on policy-conformant formatted values *)
 Theorem C13_formatted_text_stable : forall v, policy_value v ->
